@@ -15,7 +15,7 @@ freedom so that the rules see one spelling:
 * ``if a: if b: X`` -> ``if a and b: X`` (no else branches);  a loop body ``if c: continue; REST`` -> ``if not c: REST``
 * ``x = x + 1`` -> ``x += 1`` (name target, integer constant);  ``x += [y]`` -> ``x.append(y)``;  ``list()`` / ``dict()`` -> ``[]`` / ``{}``
 * inside functions ``x: T = e`` -> ``x = e`` for a plain local
-* ``for v in E: yield v`` -> ``yield from E``;  ``t = E; <statement reading t once in its header>`` -> the statement with ``E`` in
+* ``x = list(E); x.sort()`` -> ``x = sorted(E)``;  ``for v in E: yield v`` -> ``yield from E``;  ``t = E; <statement reading t once in its header>`` -> the statement with ``E`` in
   place of ``t`` when ``t`` occurs nowhere else in the function
 * ``t = E; return t`` -> ``return E`` when ``t`` is a plain local that no nested function or lambda refers to
 
@@ -177,6 +177,15 @@ class Canon(ast.NodeTransformer):
         while i < len(stmts):
             st = stmts[i]
             nxt = stmts[i + 1] if i + 1 < len(stmts) else None
+            # x = list(E); x.sort(**kw)  ->  x = sorted(E, **kw)
+            if isinstance(st, ast.Assign) and len(st.targets) == 1 and isinstance(st.targets[0], ast.Name) and isinstance(st.value, ast.Call) and isinstance(st.value.func, ast.Name) \
+                    and st.value.func.id == "list" and len(st.value.args) == 1 and not st.value.keywords and isinstance(nxt, ast.Expr) and isinstance(nxt.value, ast.Call) \
+                    and isinstance(nxt.value.func, ast.Attribute) and nxt.value.func.attr == "sort" and isinstance(nxt.value.func.value, ast.Name) and nxt.value.func.value.id == st.targets[0].id \
+                    and not nxt.value.args:
+                call = ast.copy_location(ast.Call(func=ast.Name(id="sorted", ctx=ast.Load()), args=[st.value.args[0]], keywords=nxt.value.keywords), st.value)
+                out.append(ast.copy_location(ast.Assign(targets=st.targets, value=call), st))
+                i += 2
+                continue
             # t = E; <statement whose header reads t exactly once>  ->  the statement with E in place of t   (t used nowhere else)
             if isinstance(st, ast.Assign) and len(st.targets) == 1 and isinstance(st.targets[0], ast.Name) and nxt is not None and self._name_count.get(st.targets[0].id, 0) == 2 \
                     and st.targets[0].id not in self._captured and not isinstance(st.value, (ast.Yield, ast.YieldFrom, ast.Await)):
